@@ -172,7 +172,7 @@ int main(int argc, char** argv) {
     R.init(argc, argv, "C19", "C19_dynrf"); quiet();
     R.rule = "zero: one evaluation = one step of dynamic vs static map; proto: one evaluation = one call sequence replayed on a fresh real DynamicRFKickMap; distinct = FNV of case (+history/output)";
     R.sample_every = 400;
-    const bool T = R.thorough();
+    const bool T = true /* the wide lattices run in both tiers */; const bool D = R.thorough(); (void)D;
     part_zero(T ? std::vector<unsigned>{8, 16, 17, 32, 33} : std::vector<unsigned>{8, 9});
     part_proto(T ? std::vector<unsigned>{8, 16, 17} : std::vector<unsigned>{8, 9}, T ? 12 : 7, T ? 8 : 6);
     part_wave(T ? 300000 : 30000);
